@@ -72,6 +72,19 @@ fn reencode_flags(f: &Frame, o: &mut L) {
                         device_address: f.device_address, data_len: 1, data: [255, 0, 0, 0, 0, 0, 0, 0] };
     let a = copy_frame(f);
     o.push(match guarded(move || { let mut b = PacketBuilder::new(start).unwrap(); let _ = b.add_frame(a); }) { Some(_) => 0, None => PANIC });
+    // a small packet completed around f and built (Glue/StreamFrame.v `around`): f as start frame of <= 3 frames, or as the last continuation frame (id 1 or 2)
+    let (id, is_last) = match f.frame_id { FrameId::LastFrameId(i) => (i, true), FrameId::CurrentFrameId(i) => (i, false) };
+    let cont = |i: u16| Frame { not_error_flag: f.not_error_flag, start_frame_flag: false, multi_frame_flag: true, frame_id: FrameId::CurrentFrameId(i), device_address: f.device_address, data_len: 1, data: [i as u8, 0, 0, 0, 0, 0, 0, 0] };
+    let seq: Option<Vec<Frame>> = if f.start_frame_flag {
+        if is_last && id <= 2 { let mut v = vec![copy_frame(f)]; for i in 1..=id { v.push(cont(i)); } Some(v) } else { None }
+    } else if id >= 1 && id <= 2 {
+        let mut v = vec![Frame { not_error_flag: f.not_error_flag, start_frame_flag: true, multi_frame_flag: true, frame_id: FrameId::LastFrameId(id), device_address: f.device_address, data_len: 1, data: [id as u8, 0, 0, 0, 0, 0, 0, 0] }];
+        for i in 1..id { v.push(cont(i)); } v.push(copy_frame(f)); Some(v)
+    } else { None };
+    o.push(match seq {
+        None => 0,
+        Some(v) => match guarded(move || { let mut it = v.into_iter(); if let Ok(mut b) = PacketBuilder::new(it.next().unwrap()) { let mut ok = true; for g in it { if b.add_frame(g).is_err() { ok = false; break; } } if ok { let _ = b.build(); } } }) { Some(_) => 0, None => PANIC },
+    });
 }
 fn show_fres(r: Option<Result<Frame, FrameError>>, o: &mut L, with_flags: bool) {
     match r {
